@@ -86,7 +86,7 @@ def run(v):
     if v.tier == "quick":
         args = ["-n", "5", "-points", "45"]
     else:
-        args = ["-n", "20", "-kstep", "1"]
+        args = ["-n", "20", "-points", "1500"]
     rc, o = C.sh([C.harness_bin(HARNESS), "crash", "-mode", "kill", "-out", out, "-seed", str(v.seed)] + args, timeout=20000)
     if rc != 0:
         v.violation("C03/harness-run", o[-1500:], {"theorem_or_correspondence": "correspondence fs_kill_state (harness run)"}, False)
@@ -104,13 +104,13 @@ def run(v):
         "evaluations": total,
         "distinct_nontrivial": stats["distinct_nontrivial"],
         "traces_validated_against_impl": total,
-        "exhaustive": v.tier != "quick",
+        "exhaustive": False,
         "rule": "kill points = (script, system call name, k): the child process running a deterministic script over the real "
                 "litestream code (script kept on one OS thread because strace counts injections per thread and per call) is "
                 "SIGKILLed on entry to the k-th openat/write/pwrite64/fsync/fdatasync/rename*/unlink*/ftruncate/"
                 "copy_file_range/sendfile; quick: 5 scripts (basic; republish = publishes over existing final names; retention; reset = ResetLocalState on the open DB then syncs; resetfetch = reset + baseline "
                 "fetch + syncs + uploads; retention), about 45 kill points spread "
-                "evenly over the recorded K mutating calls of each; thorough: every kill point of 20 scripts (basic, reset, "
+                "evenly over the recorded K mutating calls of each; thorough: about 1500 kill points (every 5th-10th mutating call) spread evenly over 20 scripts (basic, reset, "
                 "resetfetch, republish, retention, baseline, rerestore, checkpoint, follow, sidecar x 2 parameter draws). After each kill: every *.ltx must "
                 "decode and checksum (ltx Decoder.Verify), restore output must be absent or a database in an acknowledged "
                 "state, sidecar absent or parsable, restore of the last acknowledged replica TXID must equal the digest "
@@ -124,12 +124,16 @@ def run(v):
         "killed": ex["killed"],
         "mutating_calls_per_script": ex["mutating_calls_per_script"],
         "post_kill_violations": len(stats.get("impl_violations") or []),
+        "paths_left_out_because_a_call_on_them_was_in_flight": ex.get("paths_left_out_because_a_call_on_them_was_in_flight", 0),
         "model_mismatches": len(mism),
         "runner_errors": errors[:5],
     })
     v.assumptions += [
         "strace's inject=<call>:signal=KILL:when=k kills the process on entry to the call (its effect is not applied); "
-        "kills inside a system call are approximated by before/after",
+        "kills inside a system call are approximated by before/after; a file named by a call that was still in flight on "
+        "ANOTHER thread when the process died (entered, never reported finished) is not determined by the completed-call "
+        "prefix and is left out of the model comparison for that kill point (counted in coverage); the real-code oracles "
+        "(verify, restore, restart) still cover it",
         "a process kill loses no completed system call (page cache survives); power failure is C11's subject",
         "SQLite's own crash safety for db/-wal/-shm is assumed",
     ]
